@@ -3,6 +3,7 @@ extern int g_arg;                  /* the argument value of the trigger being de
 extern int g_l_calls, g_rm_calls, g_c_calls;          /* calls of the wrapped listener / target remove / condition during this trigger */
 extern unsigned long g_seq, g_l_seq, g_rm_seq;        /* order of those calls */
 extern _Bool g_cond;               /* the (arbitrary, fixed) answer of the condition for this trigger */
+extern void *g_cur_cond;           /* the condition object stored in the wrapper's own data (a stateful condition must be evaluated in place, not on a copy) */
 extern void *g_cur_target; extern Node *g_cur_handle; extern int g_cur_event; extern void *g_cur_data;
 extern Node *g_new_handle;         /* handle the target returns for the registration */
 #define FRESHALLOC(T) __CPROVER_assigns() __CPROVER_ensures(__CPROVER_is_fresh(__CPROVER_return_value, sizeof(T)))
@@ -19,10 +20,11 @@ extern Node *g_new_handle;         /* handle the target returns for the registra
   __CPROVER_ensures(g_l_calls == __CPROVER_old(g_l_calls) + 1 && g_seq == __CPROVER_old(g_seq) + 1 && g_l_seq == g_seq)
 /* condition: evaluated with the trigger's arguments (if it takes them) */
 #define CONTRACT_UserCond_call \
-  __CPROVER_requires(a0->id == g_arg) \
+  __CPROVER_requires(a0->id == g_arg && (void *)f == g_cur_cond) \
   __CPROVER_assigns(g_c_calls) \
   __CPROVER_ensures(g_c_calls == __CPROVER_old(g_c_calls) + 1 && __CPROVER_return_value == g_cond)
 #define CONTRACT_UserCond0_call \
+  __CPROVER_requires((void *)f == g_cur_cond) \
   __CPROVER_assigns(g_c_calls) \
   __CPROVER_ensures(g_c_calls == __CPROVER_old(g_c_calls) + 1 && __CPROVER_return_value == g_cond)
 /* target remove: must be asked to remove exactly this wrapper's own registration: its target, its handle, and (dispatcher)
@@ -58,7 +60,7 @@ extern Node *g_new_handle;         /* handle the target returns for the registra
  * once in both cases; the wrapper detaches itself (before the listener runs) exactly when the condition held */
 #define NR_CONTRACT(DATA, TGT, BIND) \
   __CPROVER_requires(__CPROVER_is_fresh(self, sizeof(*self)) && __CPROVER_is_fresh(self->data, sizeof(DATA)) && __CPROVER_is_fresh(self->data->TGT, sizeof(*self->data->TGT)) && __CPROVER_is_fresh(args, sizeof(VArg))) \
-  __CPROVER_requires(GSMALL && args->id == g_arg && g_cur_target == (void *)self->data->TGT && g_cur_handle == self->data->handle.p && g_cur_data == (void *)self->data && (BIND)) \
+  __CPROVER_requires(GSMALL && args->id == g_arg && g_cur_target == (void *)self->data->TGT && g_cur_handle == self->data->handle.p && g_cur_data == (void *)self->data && g_cur_cond == (void *)&self->data->shouldRemove && (BIND)) \
   __CPROVER_assigns(args->id, g_l_calls, g_rm_calls, g_c_calls, g_seq, g_l_seq, g_rm_seq) \
   __CPROVER_ensures(g_l_calls == __CPROVER_old(g_l_calls) + 1 && g_c_calls == __CPROVER_old(g_c_calls) + 1) \
   __CPROVER_ensures(g_cond ? (g_rm_calls == __CPROVER_old(g_rm_calls) + 1 && g_rm_seq < g_l_seq) : g_rm_calls == __CPROVER_old(g_rm_calls))
